@@ -173,6 +173,9 @@ package resolver
 //@   # reply was bound to the lease of the delegation the target leg was learned through - whatever the target
 //@   # contributed (answers, NXDOMAIN or an answer-less NODATA)
 //@   assert at store dns.MsgHdr.Rcode#1: value == targetMsg.Rcode && (targetCut == nil || calls("(*middleware.ResponseMeta).BoundCutFor") == 1)
+//@   # C01: the outer reply adopts the target leg's rcode WHATEVER it is - a target zone that failed validation comes
+//@   # back as SERVFAIL and must surface as SERVFAIL, not as the outer zone's NOERROR with a dangling alias
+//@   possible at store dns.MsgHdr.Rcode#1: targetMsg.Rcode == dns.RcodeServerFailure
 //@   assert at call (*middleware.ResponseMeta).BoundCutFor#1: arg0 == lastret("middleware.ResponseMetaFrom") && arg1 == lastret("(*middleware.ResponseMeta).Cut") && arg2 == lastret("(*middleware.ResponseMeta).Cut", 1)
 //@   assert at call (*middleware.ResponseMeta).Cut#1: arg0 == targetCut && targetCut == lastret("(*middleware/resolver.Resolver).checkDname", 1)
 //@
